@@ -1,9 +1,12 @@
 package verifharness
 
 import (
+	"bytes"
 	"fmt"
+	"io"
 	"net/http"
 	"strings"
+	"sync/atomic"
 	"time"
 
 	"verif/sim/simnet"
@@ -251,8 +254,13 @@ func livenessHealRealServer(w *World) {
 	// optionally a server plugin is consulted for every registration, which then takes simulated time: a client that
 	// dies in that window must still be cleaned up completely
 	slowReg := time.Duration(0)
-	if w.KnobBool("newproxy_plugin", 50) {
-		slowReg = time.Duration(w.KnobPick("newproxy_plugin_ms", 20, 200, 800)) * time.Millisecond
+	// ... and optionally for every login, some of which it refuses (armed by the half-open fault below)
+	var refuseLogins atomic.Int32
+	loginPlugin := w.KnobBool("login_plugin", 50)
+	if npl := w.KnobBool("newproxy_plugin", 50); npl || loginPlugin {
+		if npl {
+			slowReg = time.Duration(w.KnobPick("newproxy_plugin_ms", 20, 200, 800)) * time.Millisecond
+		}
 		restore := w.PlugN.Enter()
 		pln, perr := w.Net.Listen("tcp", "10.0.4.1:9800")
 		restore()
@@ -260,13 +268,30 @@ func livenessHealRealServer(w *World) {
 			w.Fail("%v", perr)
 		}
 		w.PlugN.Go(func() {
-			(&http.Server{Handler: http.HandlerFunc(func(rw http.ResponseWriter, _ *http.Request) {
-				time.Sleep(slowReg)
+			(&http.Server{Handler: http.HandlerFunc(func(rw http.ResponseWriter, req *http.Request) {
+				body, _ := io.ReadAll(req.Body)
 				rw.Header().Set("Content-Type", "application/json")
+				if bytes.Contains(body, []byte(`"op":"Login"`)) {
+					if refuseLogins.Load() > 0 {
+						refuseLogins.Add(-1)
+						w.Net.Count("fault.login_refused", 1)
+						rw.Write([]byte(`{"reject":true,"reject_reason":"not now"}`))
+						return
+					}
+				} else {
+					time.Sleep(slowReg)
+				}
 				rw.Write([]byte(`{"reject":false,"unchange":true}`))
 			})}).Serve(pln)
 		})
-		scfg["httpPlugins"] = []map[string]any{{"name": "slow", "addr": "10.0.4.1:9800", "path": "/handler", "ops": []string{"NewProxy"}}}
+		var ops []string
+		if slowReg > 0 {
+			ops = append(ops, "NewProxy")
+		}
+		if loginPlugin {
+			ops = append(ops, "Login")
+		}
+		scfg["httpPlugins"] = []map[string]any{{"name": "slow", "addr": "10.0.4.1:9800", "path": "/handler", "ops": ops}}
 	}
 	frps, err := w.StartFrps(w.Frps, scfg)
 	if err != nil {
@@ -405,9 +430,38 @@ func livenessHealRealServer(w *World) {
 		case 6: // half-open: the client's connections are cut so that only the client notices (state lost in a
 			// middlebox); the server still holds the old session when the client comes back with its run id
 			w.Probe("liveness.half_open")
+			healthy := true
+			for _, p := range ports {
+				healthy = healthy && roundTrip(p)
+			}
+			nref := 0
+			if loginPlugin && healthy && r.Intn(2) == 0 {
+				// the client's first attempts to come back are refused (by a plugin), then it is let in again
+				nref = r.Range(1, 2)
+				refuseLogins.Store(int32(nref))
+				w.Probe("liveness.half_open_then_refused_logins")
+			}
+			before := logins()
 			for _, id := range w.Net.PairsMatching(func(l string, _ int) bool { return strings.HasPrefix(l, "frpc1>10.0.0.1:7000") }) {
 				w.Net.HalfOpenPair(id, 0)
 			}
+			if nref > 0 && w.WaitUntil(120*time.Second, 100*time.Millisecond, func() bool { return logins() > before }) {
+				// the same client process is back, and let in: its old session (which the server never saw end) must not
+				// stand in the way of its proxies. Bound: one registration retry interval of the client (30 s) + margin
+				w.Check("C14.heals-after-half-open-and-refusals")
+				t0 := w.Net.Now()
+				if !w.WaitUntil(45*time.Second, 500*time.Millisecond, func() bool {
+					for _, p := range ports {
+						if !roundTrip(p) {
+							return false
+						}
+					}
+					return true
+				}) {
+					viol("heal", "proxies-not-back-after-accepted-login", "the client's connections were cut so that only the client noticed; %d logins were refused, then one was accepted; %v after the accepted login the tunnels are still not usable (mux=%v tls=%v)", nref, w.Net.Now()-t0, tcpMux, tlsOn)
+				}
+			}
+			refuseLogins.Store(0)
 		case 5: // the client process is killed while it is registering its proxies on a new session, and started again
 			before := logins()
 			resetAll()
